@@ -1,7 +1,8 @@
 #!/usr/bin/env python3
 """Evaluates seeded changes written by a helper agent (which saw only the property text).
 
-  python3 tools/seeded_eval.py /tmp/seed-out/A8 [--only C08/m1] [--tier quick]
+  python3 tools/seeded_eval.py /tmp/seed-out/A8 [--only C08/m1] [--tier quick]     (fresh output of a helper agent)
+  python3 tools/seeded_eval.py /verif/seeded [--only C08]                            (re-evaluate what is stored)
 
 For every <dir>/<Cxx>/<mN>/ it
   1. creates a scratch worktree of /repo (HEAD) outside /repo and /verif,
@@ -37,8 +38,15 @@ def demo_cmd(readme, d):
     """returns (dest dir relative to the tree or None, go test command)"""
     txt = open(readme).read() if readme else ""
     m = re.search(r"(go test [^\n`]*)", txt)
-    cmd = m.group(1).strip() if m else None
-    return cmd
+    if not m:
+        return None
+    toks = m.group(1).strip().split()
+    out = []
+    for t in toks:
+        out.append(t)
+        if t == "." or t.startswith("./"):
+            break
+    return " ".join(out)
 
 
 def main():
@@ -61,9 +69,13 @@ def main():
         print(out); sys.exit(2)
     head = sh("git -C /repo log --format=%h -1")[1].strip()
     try:
-        for d in sorted(glob.glob(os.path.join(src, "C[0-9][0-9]", "m[0-9]*"))):
+        stored = os.path.abspath(src) == os.path.join(ROOT, "seeded")
+        pattern = os.path.join(src, "C[0-9][0-9]", "A*-m[0-9]*") if stored else os.path.join(src, "C[0-9][0-9]", "m[0-9]*")
+        for d in sorted(glob.glob(pattern)):
             prop, mn = d.split("/")[-2:]
-            if only and only != "%s/%s" % (prop, mn):
+            if stored:
+                agent, mn = mn.split("-", 1)
+            if only and only != "%s/%s" % (prop, mn) and only != prop and only != "%s/%s-%s" % (prop, agent, mn):
                 continue
             patch = os.path.join(d, "patch.diff")
             if not os.path.exists(patch):
@@ -83,24 +95,46 @@ def main():
                 continue
             # demonstration
             demos = glob.glob(os.path.join(d, "demo", "*_test.go"))
+            subdirs = [x for x in glob.glob(os.path.join(d, "demo", "*")) if os.path.isdir(x)]
             readmes = glob.glob(os.path.join(d, "demo", "README*"))
             cmd = demo_cmd(readmes[0] if readmes else None, d)
             demo = {"ran": False}
+            if not demos and subdirs and cmd:
+                # the demonstration is a package directory to be copied into the root of the tree
+                dirs = []
+                for sd in subdirs:
+                    dest = os.path.join(wt, os.path.basename(sd))
+                    shutil.copytree(sd, dest); dirs.append(dest)
+                if " -timeout" not in cmd:
+                    cmd = cmd.replace("go test", "go test -timeout 300s", 1)
+                rc0, out0 = sh(cmd, cwd=wt, timeout=900)
+                sh("git apply %s" % patch, cwd=wt)
+                rc1, out1 = sh(cmd, cwd=wt, timeout=900)
+                demo = {"ran": True, "command": cmd, "clean_tree_rc": rc0, "patched_tree_rc": rc1,
+                        "confirmed": rc0 == 0 and rc1 != 0, "patched_output_tail": out1[-1500:]}
+                for x in dirs:
+                    shutil.rmtree(x, ignore_errors=True)
+                sh("git checkout -- .", cwd=wt)
             if demos and cmd:
                 placed = []
                 # a command that targets a directory which does not exist in the tree names the place the demo wants to live in
                 target = None
+                existing = None
                 for tok in cmd.split():
                     if tok.startswith("./") and len(tok) > 2 and not tok.startswith("./..."):
                         t = tok.strip("/").lstrip("./")
                         if t and not os.path.isdir(os.path.join(wt, t)):
                             target = t
+                        elif t:
+                            existing = t
+                    elif tok == ".":
+                        existing = "."
                 made = None
                 if target:
                     made = os.path.join(wt, target)
                     os.makedirs(made)
                 for f in demos:
-                    dest = os.path.join(made or os.path.join(wt, pkg_dir(wt, f)), os.path.basename(f))
+                    dest = os.path.join(made or os.path.join(wt, existing if existing else pkg_dir(wt, f)), os.path.basename(f))
                     shutil.copy(f, dest); placed.append(dest)
                 # other support files of the demo (non-test .go) go next to the first test file
                 for f in glob.glob(os.path.join(d, "demo", "*.go")):
@@ -141,11 +175,19 @@ def main():
                     except Exception:
                         pass
             sh("git checkout -- . && git clean -fdq", cwd=wt)
+            # the shrunk failing case becomes a regression case of the property (replayed by both tiers)
+            rf = res["check"].get("replay_file", "")
+            if caught and rf.endswith(".json") and os.path.basename(rf).startswith(("min-", "crash-")):
+                os.makedirs(os.path.join(ROOT, "regress", prop), exist_ok=True)
+                shutil.copy(rf, os.path.join(ROOT, "regress", prop, "seeded-%s-%s.json" % (agent, mn)))
+                res["check"]["regression_case"] = "regress/%s/seeded-%s-%s.json" % (prop, agent, mn)
+                res["check"]["replay_file"] = res["check"]["regression_case"]
             # store
             dst = os.path.join(ROOT, "seeded", prop, "%s-%s" % (agent, mn))
             os.makedirs(dst, exist_ok=True)
-            shutil.copy(patch, os.path.join(dst, "patch.diff"))
-            if os.path.isdir(os.path.join(d, "demo")):
+            if os.path.abspath(dst) != os.path.abspath(d):
+                shutil.copy(patch, os.path.join(dst, "patch.diff"))
+            if os.path.isdir(os.path.join(d, "demo")) and os.path.abspath(dst) != os.path.abspath(d):
                 shutil.rmtree(os.path.join(dst, "demo"), ignore_errors=True)
                 shutil.copytree(os.path.join(d, "demo"), os.path.join(dst, "demo"))
             meta.setdefault("property", prop)
